@@ -3,7 +3,7 @@
    line.py, _stream.py; tied to /repo by harness/c01.py).  The inner one-shot codec (enc, dec) is arbitrary. *)
 From Coq Require Import List Arith.
 From EN Require Import Lib.Bytes Frame.Framer Frame.ReadUntil Frame.BufReadUntil Stream.Consumer Stream.SpecDecode
-  Proofs.C01_proofs Proofs.Fixed_proofs.
+  Frame.Serialize Proofs.C01_proofs Proofs.Fixed_proofs Proofs.Serialize_proofs.
 Import ListNotations.
 
 (* Copying consumer (StreamDataConsumer over read_until): for EVERY list of packets valid for the codec, EVERY way of
@@ -36,6 +36,20 @@ Theorem bconsumer_roundtrip :
                  bcons c' = None /\ balready c' = 0 /\ bexported c' = None.
 Proof. intros P sep keep_end enc dec limit sizehint Hne Hl pkts chunks fuel. exact (bconsumer_roundtrip_l sep keep_end enc dec Hne limit sizehint pkts chunks fuel Hl). Qed.
 Print Assumptions bconsumer_roundtrip.
+
+(* Sending side (incremental_serialize of StringLineSerializer and AutoSeparatedPacketSerializer, with or without the
+   separator check): for every transmittable payload (non-empty; the separator first occurs in payload ++ separator at
+   its very end) exactly one chunk, payload ++ separator, is produced — the frame the receiving theorems start from. *)
+Theorem send_side_frames :
+  forall (sep data : bytes) (check : bool),
+    sep <> [] -> data <> [] -> find0 sep (data ++ sep) = Some (length data) ->
+    line_iser sep data = [data ++ sep] /\ autosep_iser check sep data = Some [data ++ sep].
+Proof.
+  intros sep data check Hs Hd Hf. split.
+  - exact (line_iser_frame sep Hs data (conj Hd Hf)).
+  - exact (autosep_iser_frame sep Hs check data (conj Hd Hf)).
+Qed.
+Print Assumptions send_side_frames.
 
 (* Fixed-size framing (FixedSizePacketSerializer / StructSerializer over read_exactly), copying consumer: for every
    record size >= 1, every list of packets whose encoding has exactly that size and round-trips through the one-shot
